@@ -218,23 +218,8 @@ pub fn stories(prop: &str) -> Vec<Scenario> {
 }
 
 /// Predicates of the known findings (ids must also be listed as open in known-findings.json).
-pub fn known(_prop: &str, rule: &str, sc: &Scenario, _detail: &str) -> Option<&'static str> {
-    let ops = || sc.threads.iter().flatten();
-    let bottom = sc.c("bottom") == 1 || ops().any(|o| o.k == "mp_align" && o.n0() % 2 == 1);
-    let layout_rule = [".log_lines", ".transcript", ".cursor", ".bottom_edge", ".no_paint_no_change"]
-        .iter()
-        .any(|s| rule.ends_with(s));
-    if bottom && layout_rule {
-        // KF-BOTTOM-PRINT: with bottom alignment the blank padding rows of a shrunken region are
-        // written above the printed lines but remembered as erasable rows at the bottom
-        if ops().any(|o| matches!(o.k.as_str(), "println" | "mp_println" | "suspend" | "mp_suspend")) {
-            return Some("KF-BOTTOM-PRINT");
-        }
-        // KF-BOTTOM-REAP: reaping a finished bar keeps the top rows of the region, which under
-        // bottom alignment are the blank padding rows, not the bar's rows
-        if ops().any(|o| matches!(o.k.as_str(), "drop" | "drop_all")) {
-            return Some("KF-BOTTOM-REAP");
-        }
-    }
+pub fn known(_prop: &str, _rule: &str, _sc: &Scenario, _detail: &str) -> Option<&'static str> {
+    // the two bottom-alignment findings (KF-BOTTOM-PRINT, KF-BOTTOM-REAP) were repaired; no open
+    // finding is left for the terminal-facing checks
     None
 }
